@@ -54,6 +54,11 @@ func runScriptOnce(in *c06.ScriptInput, kb, ka uint64, hook bool) ([]c06.Rec, c0
 	return s.Trace(), s.FinalState()
 }
 
+// countHook only counts invocations.
+type countHook struct{ n int }
+
+func (h *countHook) Func(hooking.HookCtx) { h.n++ }
+
 // statTracers attaches the four aggregate tracers to every component.
 func statTracers(s *asm.Sim) {
 	all := func(tracing.TaskStart) bool { return true }
@@ -62,6 +67,9 @@ func statTracers(s *asm.Sim) {
 	bt := tracing.NewBusyTimeTracer(all)
 	tc := tracing.NewTagCountTracer(all)
 	comps := append([]tracing.NamedHookable{}, s.Driver)
+	if s.Driver2 != nil {
+		comps = append(comps, s.Driver2)
+	}
 	for _, c := range s.Comps {
 		if nh, ok := c.(tracing.NamedHookable); ok {
 			comps = append(comps, nh)
@@ -80,6 +88,8 @@ type obsCfg struct {
 	opt   asm.Options
 	stat  bool
 	eater bool
+	// bufhook: a counting hook on every Hookable inside every component State (state buffers, pipelines)
+	bufhook bool
 }
 
 var obsCfgs = []obsCfg{
@@ -89,7 +99,8 @@ var obsCfgs = []obsCfg{
 	{name: "id-eating-hook", eater: true},
 	{name: "stat-tracers", stat: true},
 	{name: "vis-tracing(db tracer + buffer tracing)", opt: asm.Options{VisTracing: true}},
-	{name: "all", opt: asm.Options{VisTracing: true, EventTrace: true}, stat: true, eater: true},
+	{name: "state-buffer hooks", bufhook: true},
+	{name: "all", opt: asm.Options{VisTracing: true, EventTrace: true}, stat: true, eater: true, bufhook: true},
 }
 
 // fingerprint: every response (op, kind, data, time) in order, the end time,
@@ -103,20 +114,24 @@ func runLibOnce(cfg *asm.Config, oc obsCfg) ([]uint64, map[string]any) {
 	if oc.eater {
 		s.Engine.AcceptHook(&idEater{2, 1})
 	}
+	hooked := 0
+	if oc.bufhook {
+		hooked = s.HookStateBuffers(&countHook{})
+	}
 	s.Start()
 	s.Engine.Run()
 	var fp []uint64
-	for _, r := range s.Driver.State.Log {
+	for _, r := range s.Logs() {
 		w := uint64(0)
 		if r.Write {
 			w = 1
 		}
-		fp = append(fp, uint64(r.Op), w, uint64(r.Data), r.Time)
+		fp = append(fp, uint64(int64(r.Op)+2000), w, uint64(r.Data), r.Time)
 	}
 	fp = append(fp, uint64(s.Engine.CurrentTime()))
 	fp = append(fp, s.MemImage(cfg)...)
-	info := map[string]any{"responses": len(s.Driver.State.Log), "end": uint64(s.Engine.CurrentTime()),
-		"done": s.Driver.Done()}
+	info := map[string]any{"responses": len(s.Logs()), "end": uint64(s.Engine.CurrentTime()),
+		"done": s.Done(), "state_buffers_hooked": hooked}
 	return fp, info
 }
 
@@ -191,8 +206,8 @@ func init() {
 		Imports: "From Akita Require Import Lib.Base Lib.AbsSim C06.Model C06.Exec C33.Model C33.Exec.",
 		Rule: "scripted simulations run on the real SerialEngine without any hook and with an engine hook consuming kb/ka generated IDs " +
 			"before/after every event (full traces with IDs compared with the model); library assemblies (ideal, wt, wb, wt+wb, banked, " +
-			"virtual-memory stack) run under 7 observer configurations (bare standalone registrar with no hook anywhere, default simulation with tracing off, engine hook, ID-eating hook, four aggregate tracers on every " +
-			"component, DB tracer + port buffer tracing, all) and their fingerprints (responses with data and times in order, end time, " +
+			"virtual-memory stack) run under 8 observer configurations (bare standalone registrar with no hook anywhere, default simulation with tracing off, engine hook, ID-eating hook, four aggregate tracers on every " +
+			"component, DB tracer + port buffer tracing, a hook on every state buffer/pipeline inside component State, all); a third of the assemblies have a second driver competing for the same connection, a third a control history (pause/drain/flush/reset/enable) in the middle of traffic and their fingerprints (responses with data and times in order, end time, " +
 			"final backing-memory image at every touched line) compared. Non-trivial: script with >= 3 events and an observer consuming >= 1 ID per event; every library case.",
 		Gen: gen, Run: run, Shrink: shrink,
 	})
